@@ -320,6 +320,15 @@ func genC01(repo string) (string, error) {
 	}
 	sort.Strings(names)
 	fmt.Fprintf(&b, "def primitiveNames : List String := %s\n", leanStrList(names))
+	var nb []string
+	for _, n := range names {
+		var bs []string
+		for _, c := range []byte(n) {
+			bs = append(bs, fmt.Sprint(c))
+		}
+		nb = append(nb, "["+strings.Join(bs, ", ")+"]")
+	}
+	fmt.Fprintf(&b, "def primitiveNameBytes : List (List UInt8) := [%s]\n", strings.Join(nb, ", "))
 
 	// --- zcode tag arithmetic ----------------------------------------------------------
 	zf := files["zcode/bytes.go"]
